@@ -14,6 +14,10 @@ from classy_blocks.util.constants import TOL
 
 class SmootherBase(abc.ABC):
     def __init__(self, grid: GridBase):
+        self.fixed: Set[int] = set()
+        self._set_grid(grid)
+
+    def _set_grid(self, grid: GridBase) -> None:
         self.grid = grid
 
         self.inner: List[Junction] = []
@@ -21,14 +25,17 @@ class SmootherBase(abc.ABC):
             if not junction.is_boundary:
                 self.inner.append(junction)
 
-        self.fixed: Set[int] = set()
+    def refresh(self) -> None:
+        """The mesh/sketch could have been changed since this smoother was created (or last used):
+        blocks deleted or added, sketches merged, points moved; take it as it is now"""
+        self._set_grid(self.make_grid())
 
     def fix_indexes(self, indexes: Iterable[int]) -> None:
         self.fixed.update(set(indexes))
 
     def fix_points(self, points: PointListType):
         # (points are looked up where they are now)
-        self.grid.points[:] = self.get_positions()
+        self.refresh()
 
         for point in points:
             for junction in self.grid.junctions:
@@ -36,8 +43,7 @@ class SmootherBase(abc.ABC):
                     self.fixed.add(junction.index)
 
     def smooth(self, iterations: int = 5) -> None:
-        # the mesh/sketch could have been changed since this smoother was created (or last used)
-        self.grid.points[:] = self.get_positions()
+        self.refresh()
 
         for _ in range(iterations):
             for junction in self.inner:
@@ -48,6 +54,10 @@ class SmootherBase(abc.ABC):
                 self.grid.points[junction.index] = np.average(near_points, axis=0)
 
         self.backport()
+
+    @abc.abstractmethod
+    def make_grid(self) -> GridBase:
+        """A grid of the mesh/sketch as it is now"""
 
     @abc.abstractmethod
     def get_positions(self):
@@ -62,7 +72,10 @@ class MeshSmoother(SmootherBase):
     def __init__(self, mesh: Mesh):
         self.mesh = mesh
 
-        super().__init__(HexGrid.from_mesh(self.mesh))
+        super().__init__(self.make_grid())
+
+    def make_grid(self):
+        return HexGrid.from_mesh(self.mesh)
 
     def get_positions(self):
         return [vertex.position for vertex in self.mesh.vertices]
@@ -76,9 +89,10 @@ class SketchSmoother(SmootherBase):
     def __init__(self, sketch: MappedSketch):
         self.sketch = sketch
 
-        grid = QuadGrid.from_sketch(self.sketch)
+        super().__init__(self.make_grid())
 
-        super().__init__(grid)
+    def make_grid(self):
+        return QuadGrid.from_sketch(self.sketch)
 
     def get_positions(self):
         return self.sketch.positions
